@@ -20,11 +20,7 @@ def _one(j):
     return ent
 
 
-def main():
-    from . import seam
-
-    seam.warm()
-    jobs = json.load(sys.stdin)
+def _run_jobs(jobs: list) -> list:
     out = []
     for j in jobs:
         rfd, wfd = os.pipe()
@@ -43,7 +39,79 @@ def main():
             data = fh.read()
         os.waitpid(pid, 0)
         out.append(json.loads(data.decode()))
-    json.dump(out, sys.stdout)
+    return out
+
+
+def main():
+    from . import seam
+
+    seam.warm()
+    if "--serve" in sys.argv:
+        # persistent form: one request per line {"id", "jobs"}, one answer per line {"id", "out"}.  The
+        # server itself never compiles anything (every job runs in a fork()ed child), so each job
+        # still starts from the pristine post-import state of a hash-seed-0 interpreter.
+        sys.stdout.write(json.dumps({"ready": True}) + "\n")
+        sys.stdout.flush()
+        for line in sys.stdin:
+            line = line.strip()
+            if not line:
+                continue
+            req = json.loads(line)
+            sys.stdout.write(json.dumps({"id": req["id"], "out": _run_jobs(req["jobs"])}) + "\n")
+            sys.stdout.flush()
+        return
+    json.dump(_run_jobs(json.load(sys.stdin)), sys.stdout)
+
+
+# ----------------------------------------------------------------------------- client side
+# A worker (factosim.engine.worker_main) starts one server before it forks a run of a property
+# that needs references; the forked run inherits the pipes.  One run at a time per worker, so the
+# pipes are never shared.  A run killed in the middle of a request leaves a stale answer behind:
+# the worker restarts the server after a timeout, and answers carry the request id anyway.
+_SERVER = None
+_REQ = 0
+
+
+def start_server(env: dict, py: str, cwd: str) -> None:
+    global _SERVER
+    import subprocess
+
+    if _SERVER is not None and _SERVER.poll() is None:
+        return
+    _SERVER = subprocess.Popen([py, "-m", "factosim.refcompile", "--serve"], stdin=subprocess.PIPE,
+                               stdout=subprocess.PIPE, env=env, cwd=cwd, text=True, bufsize=1)
+    first = _SERVER.stdout.readline()
+    if '"ready"' not in first:
+        stop_server()
+
+
+def stop_server() -> None:
+    global _SERVER
+    if _SERVER is not None:
+        try:
+            _SERVER.kill()
+            _SERVER.wait(timeout=10)
+        except Exception:
+            pass
+    _SERVER = None
+
+
+def request(jobs: list):
+    """Answers through the inherited server, or None when there is none (caller falls back)."""
+    global _REQ
+    if _SERVER is None or _SERVER.poll() is not None:
+        return None
+    _REQ += 1
+    rid = f"{os.getpid()}-{_REQ}"
+    _SERVER.stdin.write(json.dumps({"id": rid, "jobs": jobs}) + "\n")
+    _SERVER.stdin.flush()
+    while True:
+        line = _SERVER.stdout.readline()
+        if not line:
+            raise RuntimeError("reference server died")
+        ans = json.loads(line)
+        if ans.get("id") == rid:
+            return ans["out"]
 
 
 if __name__ == "__main__":
